@@ -104,6 +104,35 @@ reg(
     "DESIGN.md section 4, C15",
 )
 
+reg("C02","model_checking",
+ "Breadth-first exploration of the Cayley graph of the octahedral rotation group (24 states, generators C4(z), C3(111), all 48 edges followed) acting on the documentation-layout geometry and on a generic pre-rotation of it, plus 90 cone points around the six axis directions (tilt 0,1e-9..1e-3) and translated copies, for every (molecule, method incl. d-orbital PM6, force mode, ground/CIS/RPA/UHF state) of the tier. Every state is one execution of the real driver compared with the group-theoretic prediction from the generic-orbit identity (scalars equal; forces, dipoles, NAC and transition dipoles rotated; net force and torque zero); every edge checks obs(h.g)=h.obs(g) and that the geometry reached by two generator words is bitwise the same state, re-executed at another batch position; disagreements are reproduced by single-molecule calls before they are reported.",
+ "Trusted: numpy rotation algebra; the generic-orbit identity as reference (cross-checked by the absolute invariants and the other 23 generic states). Bounds: two orbits of O, cones, 3 translations, molecule alphabet of the tier, scf_eps 1e-11, CIS tol 1e-9; tolerances 1e-8 scalars, 1e-6/1e-7 autodiff vectors/torque, 1e-5 for analytical and semi-numerical modes (finite-difference overlap derivative, step 1e-5 A). Known findings: frozen local frame within 4.5e-4 rad of +-x, PM6 pole on +-z.",
+ "explicit-state breadth-first exploration of a finite group's Cayley graph on the real code, group-theoretic prediction oracle on every state and transition relation on every edge",
+ "DESIGN.md section 4, C02")
+reg("C19","exploration",
+ "Exhaustive lattice: all 15 unordered pairs (with repetition) and three triples of {H2O,NH3,CH4,HF,H2CO} in generic orientations x {MNDO,AM1,PM3,PM6_SP} x relative orientations x R in {8..500 A}; deviations of energy, fragment forces, charges and orbital energies from the isolated fragments must stay under the power-law envelope fixed by the same system at R<=22 A (R^-3, orbital energies R^-2), show no step at the 40-bohr overlap cutoff and be below absolute bounds at 500 A; pair_outer_cutoff sub-lattice: the package pair list must equal {r<cutoff} exactly (N(N-1)/2 by default), results equal the default when nothing is dropped and the sum of fragments when all cross pairs are dropped; a boundary lattice puts one cross pair at exactly r=5k A with cutoff in {r-,r,r+}.",
+ "Trusted: plain-numpy reference pair list; isolated-fragment runs of the same code as the additive reference. Bounds: 5 fragments, 10 separations, <=3 orientations, K=5 envelope (worst healthy far/near 1.68), floor 1000 x scf_eps (1e-11).",
+ "explicit enumeration of a finite configuration lattice on the real code against an asymptotic envelope and a reference pair-list model",
+ "DESIGN.md section 4, C19")
+reg("C08", "exploration",
+    "Run families on the real NVE engine: every lattice point (molecule or padded batch x scf_eps {1e-8,1e-11} x reuse_P x remove_com {None, linear/1, linear/3, angular/2} x initial velocities {seeded Maxwell-Boltzmann, user field with net P and L} x surface {S0, CIS S1} x horizon {2,4,8 fs}) is executed as 5 real runs over the same physical time (dt 0.4/0.2/0.1/0.05 and a dt=0.0125 reference) plus a forward / v->-v / forward pair. Per run: P and L from /velocities,/coordinates constant, Ek row = 1/2 sum m v^2 of the same /velocities row, T row under the n_dof in force, Ep row = a fresh single point at the same /coordinates row. Per family: trajectory error and max|E(t)-E(0)| shrink by 4 per halving of dt (window [3.5,4.7]; 16 from 0.05 to 0.0125), the reversed run returns to the start; isolated steps of E(t) are located, attributed and confirmed by single points. Once: unit constants mutually consistent to 1e-14 and within 1e-6 of CODATA 2018.",
+    "Trusted: h5py read-back, the package's mass table. Bounds: 3 molecules/batches, <= 8 fs (<= 640 steps); 'no secular drift' only inside that horizon through the dt^2 scaling of the energy fluctuation; generic orientations only. Known finding: 1e-6 eV steps of the energy surface at the overlap series/closed-form junction.",
+    "explicit enumeration of a finite lattice of run families of the real integrator with relational oracles (dt-halving, time reversal, conservation laws, row-by-row recomputation of the thermo output)",
+    "DESIGN.md section 4, C08")
+reg("C12", "other",
+    "System identification of the real thermostat and integrator step with harness-owned noise, then exact linear algebra instead of sampling: (a) one-hot velocity / one-hot noise through the real _apply_langevin_thermostat after the real initialize(), for every atom of a padded batch containing every element mass Li..Cl, every dt/damp in {1e-4..10}, T in {0,10,300,3000}, 3 engines: c1^2 + c2^2 m/(k_B T) = 1 to 1e-12, T=0 and padding: c2 = 0; (b) with a linear-force electronic-structure stand-in the real _do_integrator_step of Langevin / damped XL-BOMD / damped KSA is identified as z' = A z + B xi (12N+2 executions, affinity checked); the discrete Lyapunov equation gives the stationary kinetic temperature per degree of freedom (= T to 1e-9), the package thermometer reads T for every remove_com, force-free friction per step = exp(-dt/damp); (c) real-molecule limits: damp=inf is the NVE twin exactly, finite damp inside the analytic noise bound with damp^-1/2 scaling, T=0 never raises the kinetic energy in any thermostat application.",
+    "Not sampling, not a proof: an exact Gaussian-invariance argument whose coefficients are read off the real code on a finite lattice. Trusted: scipy solve_discrete_lyapunov (residual checked), superposition probe per lattice point for affinity. Anharmonic surfaces only through (a) and (c); surface hopping / XL_ESMD inherit the thermostat and are not executed.",
+    "environment-answer enumeration (scripted noise) for exhaustive one-hot identification of the real update, followed by an exact Lyapunov computation of the stationary temperature",
+    "DESIGN.md section 4, C12")
+reg("C13", "exploration",
+    "One real 3-step run per case in its own process over molecules {H2O, CH4, CO, HCN, HF, CH4+H2O padded} x Temp {0,10,300} x seeds {0,1,12345} x RNG-history words over {draw 1, draw 17, a whole other MD run} (BFS depth 1 quick / 2 thorough) x remove_com {None, linear/1, linear/3, angular/1, angular/3} x user velocity fields {none, no net momentum, net P, net L, both, pure translation} x 6 engines; _zero_com and the integrator step observed by wrapping. Oracles: step-0 T = Temp to 1e-10 under the n_dof in force (row and recomputed from /velocities), P = 0 (L = 0 where angular was requested) to 1e-12, Temp=0 gives exactly zero velocities, padding atoms at rest, every periodic COM removal at its stride leaves |P|,|L| <= 1e-12 (conditioning-aware for nearly linear molecules), keeps Ek to 1e-12 and is the row written, same seed = all HDF5 datasets bitwise equal for every history, different seeds differ, user velocities = step-0 row exactly.",
+    "Trusted: h5py read-back, package mass table. n_dof as documented (3N-3 / 3N-6, linear molecules not auto-detected, 3N for thermostatted engines); diatomic + ('angular',N) un-thermostatted has n_dof = 0 and raises loudly (counted as rejected). 3-step runs.",
+    "environment-answer enumeration (RNG histories, seeds) and sequence BFS over prior operations on the live API, one forked process per case, relational oracles between runs",
+    "DESIGN.md section 4, C13")
+
+reg("C01","exploration","Exhaustive product lattices of executions of the real single-point driver: method {MNDO,AM1,PM3,PM6_SP} x {every hydride of the union element alphabet, every heavy-element pair H_nX-YH_m of the method's table at bond scales {0.8,1,1.3}, nine named multi-heavy molecules, the repository's own test geometry} x orientation {documentation layout = bonds on x, generic} x evaluator {autodiff, analytical, semi-numerical}; on a 6-10 molecule sub-alphabet the full product SCF converger x SP2 x {RHF neutral, RHF ion, UHF doublet, UHF triplet} x active state {S0, CIS S1/S2, RPA S1} x layout {single, homogeneous, zero-padded mixed}. Oracle per point: force = minus a 4-point central difference (h=2e-3 A, 12N geometries as one batched call) of the returned Etot, pairwise agreement of evaluators, exact zeros on padding rows; disagreements confirmed with single-molecule calls and attributed by two probes (0.02 rad tilt; h_pp floor applied in w_der from the harness).","Trusted: the package's energy as the differentiated function (its model conformance is C06), numpy. Bounds: stated geometry alphabet, scf_eps 1e-10, CIS tol 1e-8, SP2 tol 1e-7; tolerance 1e-5 (5e-5 for evaluators that difference integrals internally with delta=1e-5 A; +5000x SP2/CIS tolerance); points whose stencil energies are not on one smooth surface (SCF multi-solution) or whose active state is degenerate are excluded and counted; excited-state back-propagated forces and GPU not explored. Known finding: frozen local frame for bonds within 1e-7 of +-x.","explicit enumeration of a finite configuration lattice on the real code with a finite-difference differential oracle","DESIGN.md section 4, C01")
+reg("C14","exploration","Exhaustive product lattice method {MNDO,AM1,PM3,PM6_SP,(PM6)} x 40 molecules (closed shells, ions, doublets, triplets) x SCF converger x SP2 x {RHF,UHF} x active state {S0, CIS S1/S2, RPA S1} x {force, energy only} x orientation x layout {(x,x+t) pair, zero-padded mixed}; for every molecule of every call numpy recomputes Etot=Eelec+Enuc(+Eexc), Eiso from the CSV tables, Hf with an own copy of the published atomic heats, ascending e_mo, gap, e_mo = eig of the Fock matrix rebuilt from the returned density, Eelec=trP(H+F)/2, charges from diagonal blocks, sum q = charge, zero padding charge, dipole = charges + sp-hybrid term, d(x+t)-d(x)=Qt.","Trusted: numpy eigvalsh, the package's hcore/fock as 'the reported Fock operator' (model conformance is C06), published MOPAC constants copied into the oracle (cross-checked against CODATA to 1e-4). Bounds: stated alphabet; PM6 without dipole/Fock rebuild.","explicit enumeration of a finite configuration lattice on the real code with algebraic identity oracles","DESIGN.md section 4, C14")
+
 ALL = [f"C{i:02d}" for i in range(1, 21)]
 
 
